@@ -108,7 +108,7 @@ Section RecT.
 
   Lemma leaveT (cl tr wr : bool) f t0 t1 i dp0 dp ft svt stk ri ou hk : (t0 < t1)%N -> (t1 < two64)%N ->
     MC.dstep mc (mkT i dp0 ft (FrT cl tr wr f t0 0 ri dp svt :: stk) (ri + 1) ou, true :: hk) (MC.Leave t1)
-    = (if ((thr_of c ft <? tdelta t1 t0)%N && (negb (caller_filter c) || cl)) || wr || tr
+    = (if ((thr_of c ft <=? tdelta t1 t0)%N && (negb (caller_filter c) || cl)) || wr || tr
        then mkT i dp svt (if wr then stk else markw stk) ri
                 (ou ++ (if wr then [] else pend stk ++ [mflat_rec false ri t0 f]) ++ [mflat_rec true ri t1 f])
        else mkT i dp svt stk ri ou, hk).
@@ -117,7 +117,7 @@ Section RecT.
     assert (Hri : (if (0 <? ri + 1)%N then (ri + 1 - 1)%N else 0%N) = ri) by (destruct (0 <? ri + 1)%N eqn:E; lia).
     assert (Ht1 : (t1 =? 0)%N = false) by lia.
     mstep. cbn -[N.modulo N.add N.sub N.ltb N.eqb MC.flush_anc MC.NO_TIME]. rewrite Hri.
-    destruct ((if (ft =? MC.NO_TIME)%N then threshold c else ft) <? (t1 + 18446744073709551616 - t0) mod 18446744073709551616)%N eqn:EL;
+    destruct ((if (ft =? MC.NO_TIME)%N then threshold c else ft) <=? (t1 + 18446744073709551616 - t0) mod 18446744073709551616)%N eqn:EL;
       destruct (caller_filter c), cl, wr, tr;
       cbn -[N.modulo N.add N.sub N.ltb N.eqb MC.flush_anc MC.NO_TIME]; unfold MC.record_trace_data;
       cbn -[MC.flush_anc MC.NO_TIME N.eqb];
@@ -166,12 +166,12 @@ Section RecT.
     rewrite <- (thr_next ft f) in Hwk, Hne.
     rewrite (HK i (dp + 1)%N (ft_next ft f) _ (ri + 1)%N ou (true :: hk)) by (auto; cbn [length]; lia).
     cbn [tprune]. fold (th_of c (thr_of c ft) f). rewrite <- (thr_next ft f).
-    replace (negb (tdelta t1 t0 <? thr_of c (ft_next ft f))%N) with (thr_of c (ft_next ft f) <? tdelta t1 t0)%N by lia.
+    replace (negb (tdelta t1 t0 <? thr_of c (ft_next ft f))%N) with (thr_of c (ft_next ft f) <=? tdelta t1 t0)%N by lia.
     destruct (flat_map (tprune c (thr_of c (ft_next ft f))) ks) as [|x g'] eqn:Eg.
     - cbn [afterT]. cbn [MC.exec fold_left].
       rewrite (leaveT _ _ false f t0 t1 i (dp + 1)%N dp (ft_next ft f) ft stk ri ou hk H01 H1).
       cbn [negb orb]. rewrite !orb_false_r.
-      destruct ((thr_of c (ft_next ft f) <? tdelta t1 t0)%N && (negb (caller_filter c) || q_caller (trig_of c f))
+      destruct ((thr_of c (ft_next ft f) <=? tdelta t1 t0)%N && (negb (caller_filter c) || q_caller (trig_of c f))
                 || q_trace (trig_of c f)); [|reflexivity].
       cbn [afterT flat_map mflat]. unfold mkT. rewrite app_nil_r. rewrite <- ?app_assoc. reflexivity.
     - cbn [afterT].
